@@ -169,7 +169,7 @@ class _GhostCycles:
         return r
 
 
-def _mk_pa(c):
+def _mk_pa(c, default_cycles=False):
     ip, IPF = vec('ip', N, 'f')
     x, XF = vec('x', N, 'f')
     cvf = z3.Function('cv', I, I)
@@ -179,7 +179,10 @@ def _mk_pa(c):
     c.assume(z3.ForAll([k_], z3.Implies(z3.And(0 <= k_, k_ < NCYC), KK(k_) >= 1), patterns=[KK(k_)]))     # every cycle has at least one sample
     c.ghost['pa'] = (IPF, XF, KK, WW)
     c.ghost['kinds'] = []
-    return (ip, x), dict(cycles=_GhostCycles(KK, WW), npoints=SInt(NPTS), interp_kind='linear')
+    c.ghost['ghost_cycles'] = _GhostCycles(KK, WW)
+    if default_cycles:           # cycles=None: phase_align detects the cycles itself
+        return (ip, x), dict(npoints=SInt(NPTS), interp_kind='linear')
+    return (ip, x), dict(cycles=c.ghost['ghost_cycles'], npoints=SInt(NPTS), interp_kind='linear')
 
 
 def _call_pa(f, c, a, kw):
@@ -223,6 +226,17 @@ def _call_pa(f, c, a, kw):
             return SArr((NPTS + 1,), lambda t: E(t), 'f'), SArr((NPTS,), lambda t: Bc(t), 'f')
     g['spectra'] = Spectra
     g['_ensure_cycle_inputs'] = ensure_cycle_inputs
+
+    def get_cycle_vector_stub(phase, return_good=True, mask=None, imf=None, phase_step=1.5 * np.pi, phase_edge=np.pi / 12):
+        """the cycles phase_align detects on its own are ALL wrap-delimited cycles of the phase it was given (not only the 'good' ones)"""
+        c2 = core.C()
+        c2.oblige('phase_align->get_cycle_vector:all-cycles-of-the-given-phase', z3.BoolVal(return_good is False and mask is None), 'post')
+        if isinstance(phase, SArr) and phase.ndim == 1:
+            q_ = c2.fresh('gq', I)
+            c2.obl.append(core.Obligation('phase_align->get_cycle_vector:detected-on-the-phase-passed-in', list(c2.pc) + [z3.And(0 <= q_, q_ < N)],
+                                          z3.And(phase.shape_e[0] == N, phase.elem(q_) == IPF(q_)), 'post', list(c2.prefix[:c2.pos])))
+        return c2.ghost['ghost_cycles']
+    g['get_cycle_vector'] = get_cycle_vector_stub
     return f(*a, **kw)
 
 
@@ -248,9 +262,10 @@ def _post_pa(c, a, kw, r):
     c.oblige('post:returned-grid-is-the-grid-used', z3.Implies(z3.And(0 <= t, t < NPTS), bins.elem(t) == Bc(t)), 'post')
 
 
-def pa_unit():
+def pa_unit(default_cycles=False):
     import emd.cycles as EC
-    u = Unit('phase_align[cycle mode]', 'emd/cycles.py', 'phase_align', _mk_pa, _post_pa, loops=_loops_pa(), module=EC, wrap_call=_call_pa,
+    u = Unit('phase_align[cycle mode%s]' % (', cycles detected by phase_align' if default_cycles else ''), 'emd/cycles.py', 'phase_align',
+             (lambda c: _mk_pa(c, True)) if default_cycles else _mk_pa, _post_pa, loops=_loops_pa(), module=EC, wrap_call=_call_pa,
              inline=[('emd/support.py', 'ensure_vector', {}), ('emd/support.py', 'ensure_equal_dims', {})])
     return u
 
@@ -270,6 +285,7 @@ def units(tier):
     U += [u for u in C16.units(tier) if u.name == 'project_cycles_to_samples']
     U.append(bin_unit())
     U.append(pa_unit())
+    U.append(pa_unit(default_cycles=True))
     return U
 
 
